@@ -57,6 +57,10 @@ def main():
     ctx.model_ok = ok_drv
 
     # 4. harness against the working tree (built in step 0)
+    if ok_h and not C.HOOKS_OK:
+        ctx.tie_break("hooks-build", "the guarded verification hooks do not compile against the working tree; the harness was built "
+                      "without them: public-API streams and oracles run, the hook streams (word-level reader/writer scripts, body "
+                      "writer, NumDecompressor, f64 helpers) are not evaluated\n" + tail(C.HOOKS_ERR))
     if not ok_h:
         ctx.tie_break("harness-build", tail(out_h))
         ctx.impl_ok = False
